@@ -145,6 +145,8 @@ type attemptDesc struct {
 	Ops    [][]interface{} `json:"ops"`
 	Fault  *faultDesc      `json:"fault"`
 	PCFail []string        `json:"pcfail"`
+	// [map resource, element key]: that element's PreCommit refuses in this attempt
+	ElemPCFail [][]interface{} `json:"epcfail"`
 }
 
 type kase struct {
@@ -239,6 +241,30 @@ func (f *faulty) Index(iface distsys.ArchetypeInterface, idx tla.Value) (distsys
 	return &faulty{inner: sub, pl: f.pl, onWrite: f.onWrite}, nil
 }
 
+// elem wraps one element of an IncMap/HashMap: its PreCommit is never trivial (so the map's aggregation of its
+// elements' answers is exercised) and refuses when the script says so, after the wrapped PreCommit completed
+type elem struct {
+	distsys.ArchetypeResource
+	refuse *bool
+}
+
+func (e *elem) PreCommit(iface distsys.ArchetypeInterface) chan error {
+	ch := e.ArchetypeResource.PreCommit(iface)
+	out := make(chan error, 1)
+	refuse := *e.refuse
+	go func() {
+		var err error
+		if ch != nil {
+			err = <-ch
+		}
+		if refuse {
+			err = distsys.ErrCriticalSectionAborted
+		}
+		out <- err
+	}()
+	return out
+}
+
 // ---------------------------------------------------------------- resources of a case
 
 type bound struct {
@@ -252,6 +278,8 @@ type bound struct {
 	// mailbox; what any WriteValue put on the wire of a relaxed mailbox), so that the snapshot waits for them
 	onWrite  func()
 	onFinish func(committed bool)
+	// per-element PreCommit refusal flags of a map resource, by element key
+	elemRefuse map[string]*bool
 }
 
 var sentinel = tla.MakeString("\x00full")
@@ -318,6 +346,15 @@ func (r *runner) dbGet(key string) (tla.Value, bool) {
 		panic(err)
 	}
 	return out, found
+}
+
+func (b *bound) refuseFlag(key string) *bool {
+	if f, ok := b.elemRefuse[key]; ok {
+		return f
+	}
+	f := new(bool)
+	b.elemRefuse[key] = f
+	return f
 }
 
 func (r *runner) makeBound(d resDesc) *bound {
@@ -430,18 +467,19 @@ func (r *runner) makeBound(d resDesc) *bound {
 		}
 	case "incmap_local", "hashmap_local":
 		children := map[string]*distsys.LocalArchetypeResource{}
+		b.elemRefuse = map[string]*bool{}
 		if d.Kind == "incmap_local" {
 			b.res = resources.NewIncMap(func(index tla.Value) distsys.ArchetypeResource {
 				l := distsys.NewLocalArchetypeResource(toTLA(d.Init))
 				children[keyString(fromTLA(index))] = l
-				return l
+				return &elem{l, b.refuseFlag(keyString(fromTLA(index)))}
 			})
 		} else {
 			hm := hashmap.New[distsys.ArchetypeResource]()
 			for _, kv := range d.Table {
 				l := distsys.NewLocalArchetypeResource(toTLA(kv[1]))
 				children[keyString(kv[0])] = l
-				hm.Set(toTLA(kv[0]), l)
+				hm.Set(toTLA(kv[0]), &elem{l, b.refuseFlag(keyString(kv[0]))})
 			}
 			b.res = resources.NewHashMap(hm)
 		}
@@ -474,11 +512,12 @@ func (r *runner) makeBound(d resDesc) *bound {
 			name string
 		}
 		children := map[string]ch{}
+		b.elemRefuse = map[string]*bool{}
 		b.res = resources.NewIncMap(func(index tla.Value) distsys.ArchetypeResource {
 			l := distsys.NewLocalArchetypeResource(toTLA(d.Init))
 			name := uniq + "." + keyString(fromTLA(index))
 			children[keyString(fromTLA(index))] = ch{l, name}
-			return resources.MakePersistent(name, r.db, l)
+			return &elem{resources.MakePersistent(name, r.db, l), b.refuseFlag(keyString(fromTLA(index)))}
 		})
 		b.snap = func(keys []interface{}) interface{} {
 			out := []interface{}{}
@@ -618,6 +657,42 @@ func (r *runner) makeBound(d resDesc) *bound {
 			return tup(tup(append([]interface{}{}, seen...)...))
 		}
 		b.close = func() { recvSide.Close() }
+	case "placeholder":
+		b.res = resources.NewPlaceHolder()
+	case "crdt":
+		// one CRDT node (grow-only counter) without peers
+		addr := freeAddr()
+		id := tla.MakeString("n" + uniq)
+		res := resources.NewCRDT(id, nil, func(tla.Value) string { return addr }, resources.GCounter{},
+			resources.WithCRDTBroadcastInterval(20*time.Millisecond))
+		b.res = res
+		b.snap = func([]interface{}) interface{} { v, _ := res.ReadValue(r.scratch); return fromTLA(v) }
+	case "twopc":
+		// an unreplicated two-phase-commit variable
+		var rcvr *resources.TwoPCReceiver
+		b.res = resources.NewTwoPC(toTLA(d.Init), freeAddr(), nil, tla.MakeString("n"+uniq), func(rc *resources.TwoPCReceiver) { rcvr = rc })
+		b.snap = func([]interface{}) interface{} { return fromTLA(resources.VerifTwoPCSnapshot(rcvr).Value) }
+	case "fd":
+		// a failure detector whose monitor is unreachable: once the first poll has failed it reads TRUE
+		dead := freeAddr()
+		fd := resources.NewFailureDetector(func(tla.Value) string { return dead },
+			resources.WithFailureDetectorPullInterval(10*time.Millisecond), resources.WithFailureDetectorTimeout(100*time.Millisecond))
+		single, err := fd.Index(r.scratch, tla.MakeNumber(0))
+		if err != nil {
+			panic(err)
+		}
+		deadline := time.Now().Add(5 * time.Second)
+		for {
+			if _, err := single.ReadValue(r.scratch); err == nil {
+				break
+			}
+			if time.Now().After(deadline) {
+				panic("failure detector never left the uninitialized state")
+			}
+		}
+		fd.Abort(r.scratch)
+		b.res = fd
+		b.snap = func([]interface{}) interface{} { v, _ := single.ReadValue(r.scratch); return fromTLA(v) }
 	case "tcp_local", "relaxed_local":
 		// the archetype under test is the receiver; the harness commits batches as the sender
 		addr := freeAddr()
@@ -710,6 +785,14 @@ func (r *runner) body(iface distsys.ArchetypeInterface) (err error) {
 	}
 	for _, n := range at.PCFail {
 		*r.bounds[n].pcFail = true
+	}
+	for _, b := range r.bounds {
+		for _, f := range b.elemRefuse {
+			*f = false
+		}
+	}
+	for _, e := range at.ElemPCFail {
+		*r.bounds[e[0].(string)].refuseFlag(keyString(e[1])) = true
 	}
 	for _, ev := range at.Env {
 		r.bounds[ev[1].(string)].env(ev)
